@@ -147,6 +147,50 @@ theorem decodeSignature_shape (P : Bytes → Option Hdr) (payload : Bytes) (prot
                 | some _ => rfl
               | some _ => left; rfl
 
+/-- **flattened JSON serialisation**: the effective payload is the detached one or the non-empty embedded one, and the
+item is what `decodeSignature` yields for the received members — so every fact of `decodeSignature_shape` holds with
+the payload and the protected segment AS RECEIVED -/
+theorem decodeFlattened_shape (P : Bytes → Option Hdr) (payload : Option Bytes) (m : SigMembers) (det : Option Bytes)
+    (it : Item) (h : decodeFlattened P payload m det = some it) :
+    ∃ pl, expandPayload det payload = some pl ∧
+      it.signingInput = m.prot.getD [] ++ 46 :: pl ∧ B64.dec m.signature = some it.signature ∧ it.unprot = m.header ∧
+      validate it.prot m.header = .ok () ∧
+      (if (it.prot.bind (·.b64)).getD true then B64.dec pl = some it.claims else it.claims = pl) := by
+  unfold decodeFlattened at h
+  cases hp : expandPayload det payload with
+  | none => rw [hp] at h; cases h
+  | some pl =>
+    rw [hp] at h
+    obtain ⟨a, b, c, _, e, f, _⟩ := decodeSignature_shape P pl m.prot m.header m.signature it h
+    exact ⟨pl, rfl, a, b, c, e, f⟩
+
+/-- **general JSON serialisation**: one result per `signatures` entry, every accepted one over the same effective
+payload and its own protected segment as received -/
+theorem decodeGeneral_shape (P : Bytes → Option Hdr) (payload : Option Bytes) (sigs : List SigMembers)
+    (det : Option Bytes) (items : List (Option Item)) (h : decodeGeneral P payload sigs det = some items) :
+    ∃ pl, expandPayload det payload = some pl ∧
+      items = sigs.map (fun m => decodeSignature P pl m.prot m.header m.signature) ∧
+      ∀ m ∈ sigs, ∀ it, decodeSignature P pl m.prot m.header m.signature = some it →
+        it.signingInput = m.prot.getD [] ++ 46 :: pl ∧ B64.dec m.signature = some it.signature ∧
+        it.unprot = m.header ∧ validate it.prot m.header = .ok () ∧
+        (if (it.prot.bind (·.b64)).getD true then B64.dec pl = some it.claims else it.claims = pl) := by
+  unfold decodeGeneral at h
+  cases hp : expandPayload det payload with
+  | none => rw [hp] at h; cases h
+  | some pl =>
+    rw [hp] at h
+    simp only at h
+    have key : ∀ (c : Bool) (x : List (Option Item)), (if c = true then some x else none) = some items → x = items := by
+      intro c x hh
+      cases c
+      · simp at hh
+      · simpa using hh
+    have hx := key _ _ h
+    refine ⟨pl, rfl, hx.symm, ?_⟩
+    intro m _ it hit
+    obtain ⟨a, b, c, _, e, f, _⟩ := decodeSignature_shape P pl m.prot m.header m.signature it hit
+    exact ⟨a, b, c, e, f⟩
+
 /-- **"verified" only after a successful check with `alg` from the protected header** -/
 theorem verify_sound (V : String → Key → Bytes → Bytes → Bool) (it : Item) (key : Key)
     (p : Hdr) (u : Option Hdr) (c : Bytes) (h : verify V it key = .ok (p, u, c)) :
